@@ -106,6 +106,33 @@ def deductive(prop, tier, seed, findings):
         ctx.undecided.append(('build', '%s: %s' % (type(e).__name__, e)))
     except (KeyError, AttributeError, IndexError, TypeError, ValueError) as e:
         ctx.undecided.append(('build', 'contract no longer matches the code (%s: %s)' % (type(e).__name__, str(e)[:160])))
+    # callee contracts this property takes from other properties: the sections of those contracts that verify the callee bodies are generated
+    # again here (modular verification: the property holds only if the callees still meet the contracts it was proved against)
+    from checks.depends import DEPENDS
+    for dep, labels in DEPENDS.get(prop, []):
+        try:
+            dmod = importlib.import_module('contracts.%s' % dep)
+            dctx = Ctx(dep, tier, seed)
+            dctx.only = labels
+            dmod.build(dctx)
+        except (front.SelectorError, front.OutOfSubset) as e:
+            ctx.undecided.append(('dependency %s' % dep, '%s: %s' % (type(e).__name__, e)))
+            continue
+        except (KeyError, AttributeError, IndexError, TypeError, ValueError) as e:
+            ctx.undecided.append(('dependency %s' % dep, 'contract no longer matches the code (%s: %s)' % (type(e).__name__, str(e)[:160])))
+            continue
+        for ob in dctx.obligations:
+            ob.meta['replay_module'] = getattr(dmod, 'REPLAY_MODULE', None) or 'rac.%s' % dep
+            ob.meta['dependency'] = dep
+            ctx.obligations.append(ob)
+        ctx.covers += dctx.covers
+        ctx.trusted |= dctx.trusted
+        ctx.frame_results += dctx.frame_results
+        for k, v in dctx.functions.items():
+            v = dict(v, how='%s; callee contract of %s, sections %s' % (v.get('how', ''), dep, ', '.join(labels)))
+            ctx.functions.setdefault(k, v)
+        for label, reason in dctx.undecided:
+            ctx.undecided.append(('%s (callee contracts from %s)' % (label, dep), reason))
     # frame contracts of the property's public functions (modifies nothing / top(self)); contracts with their own frame section have no entry
     from pyvc import own_public
     ctx.guarded('frame.public', lambda: own_public.section(ctx, prop))
@@ -191,7 +218,7 @@ def check(prop, tier, seed):
                 payload = dict(property=prop, obligation=r.name, kind=r.ob.kind, model=model, call=call,
                                solver_output=('candidate model by %s after solver %s (%s)' % (note, r.status, r.reason[:100])) if candidate
                                else 'sat (%s, %.2fs)' % (r.backend, r.secs),
-                               goal=str(r.ob.goal)[:2000], replay_module=getattr(ded.get('module'), 'REPLAY_MODULE', None))
+                               goal=str(r.ob.goal)[:2000], replay_module=r.ob.meta.get('replay_module') or getattr(ded.get('module'), 'REPLAY_MODULE', None))
                 path = write_replay(prop, key, payload)
                 verdict = dict(fails=None, detail='no replay input for this obligation')
                 if call is not None:
